@@ -4,6 +4,7 @@ package main
 // limits 64*k from 0 up to the first limit at which nothing is refused.
 
 import (
+	"os"
 	"context"
 	"encoding/binary"
 	"encoding/json"
@@ -120,6 +121,7 @@ type limitRun struct {
 	anyErr bool
 	pub    *memRecorder
 	notJudged int
+	unaligned int
 }
 
 // runLimited decodes the whole history under one limit (0 = the default limit).
@@ -142,7 +144,7 @@ func runLimited(h []Letter, bars []*colarspb.BatchArrowRecords, limit uint64, us
 	healthy := true
 	for i, l := range h {
 		got, err, pan := decodeCanon(c, l, bars[i])
-		if pan != "" && !healthy && uncheckedIndexing(pan) {
+		if pan != "" && !healthy && uncheckedIndexing(pan) && os.Getenv("STREAMMC_EXEMPT_FOLLOWER_PANICS") != "" {
 			// Not judged: an earlier batch of this stream was refused, its unread
 			// payloads left sub-streams without dictionary entries that this batch
 			// indexes (same territory as spliced IPC streams, see DESIGN.md C14).
@@ -172,7 +174,7 @@ func runLimited(h []Letter, bars []*colarspb.BatchArrowRecords, limit uint64, us
 					var le carrow.LimitError
 					if errors.As(err, &le) {
 						if le.Inuse%64 != 0 || le.Request%64 != 0 {
-							r.viol = append(r.viol, fmt.Sprintf("HARNESS-ASSUMPTION: LimitError inuse=%d request=%d not multiples of 64", le.Inuse, le.Request))
+							r.unaligned++ // an observation about the allocator's granularity, not a verdict
 						}
 						if le.Inuse > limit && !useDefault {
 							r.viol = append(r.viol, fmt.Sprintf("batch %d: LimitError reports in-use %d > limit %d", i, le.Inuse, limit))
@@ -238,7 +240,7 @@ func limitLadder(h []Letter, zstd int, counters map[string]int, maxLimit uint64)
 	viol[70<<20] = append(viol[70<<20], base.viol...)
 	for _, v := range base.pub.values {
 		if v%64 != 0 {
-			viol[70<<20] = append(viol[70<<20], fmt.Sprintf("HARNESS-ASSUMPTION: published in-use value %d is not a multiple of 64", v))
+			counters["published_values_not_multiple_of_64"]++
 		}
 	}
 	everOK := make([]bool, len(h))
@@ -252,6 +254,7 @@ func limitLadder(h []Letter, zstd int, counters map[string]int, maxLimit uint64)
 		r := runLimited(h, bars, L, false)
 		counters["limit_runs"]++
 		counters["panics_on_unhealthy_stream_not_judged"] += r.notJudged
+		counters["limit_errors_not_multiple_of_64"] += r.unaligned
 		viol[L] = append(viol[L], r.viol...)
 		for i := range h {
 			if r.ok[i] {
@@ -274,8 +277,10 @@ func limitLadder(h []Letter, zstd int, counters map[string]int, maxLimit uint64)
 				counters["limit_runs"]++
 				viol[L+d] = append(viol[L+d], r2.viol...)
 				for i := range h {
-					if r2.ok[i] != r.ok[i] {
-						viol[L+d] = append(viol[L+d], fmt.Sprintf("limits %d and %d (same multiple of 64, every buffer is a multiple of 64) decide batch %d differently", L, L+d, i))
+					if r.ok[i] && !r2.ok[i] && allTrue(r.ok[:i]) && allTrue(r2.ok[:i]) {
+						viol[L+d] = append(viol[L+d], fmt.Sprintf("batch %d is decodable under limit %d but refused under the larger limit %d although every earlier batch was decoded under both", i, L, L+d))
+					} else if r2.ok[i] != r.ok[i] {
+						counters["unaligned_limit_decides_differently"]++
 					}
 				}
 			}
